@@ -1,8 +1,11 @@
 #!/usr/bin/env python3
-"""seedmatrix.py [-j N] [seed ...]: for every seeded change, apply it to a scratch worktree of /repo, run the quick
-check of every claimed property against that worktree (govc -repo <wt>), and record which checks report a VIOLATION.
+"""seedmatrix.py [-j N] [-all] [-p props] [seed ...]: for every seeded change, apply it to a scratch worktree of /repo,
+run the quick check of the seed's own property and of every claimed property that has functions in a touched package
+(-all: every claimed property) against that worktree (govc -repo <wt>), and record which checks report a VIOLATION.
 Writes /verif/seeded/MATRIX.json. Scratch worktrees and verif copies live under /tmp and are removed."""
 import json, os, subprocess, sys, tempfile, shutil, concurrent.futures as cf
+sys.path.insert(0, os.path.dirname(os.path.abspath(__file__)))
+from benignmatrix import relevant
 ENV = dict(os.environ, GOFLAGS='-mod=mod', GOPROXY='off', GOSUMDB='off', GOTOOLCHAIN='local')
 def sh(cmd, cwd=None, timeout=1800):
     p = subprocess.run(cmd, cwd=cwd, env=ENV, capture_output=True, text=True, timeout=timeout)
@@ -21,7 +24,9 @@ def run_seed(seed, props):
         for f in ['contracts', 'properties.map.json', 'known_findings.json']:
             src = os.path.join('/verif', f)
             (shutil.copytree if os.path.isdir(src) else shutil.copy)(src, os.path.join(vd, f))
-        for p in props:
+        own = seed.split('_')[0]
+        todo = props if ALL else [p for p in props if p == own or p in relevant(os.path.join(sd, 'patch.diff'), props, False)]
+        for p in todo:
             rc, out = sh(['/verif/bin/govc', '-property', p, '-tier', 'quick', '-verif', vd, '-repo', wt])
             viol = [l for l in out.splitlines() if l.startswith('VIOLATION')]
             confirmed = [l for l in viol if 'no-failing-input-found' not in l]
@@ -32,9 +37,11 @@ def run_seed(seed, props):
         sh(['git', '-C', '/repo', 'worktree', 'remove', '--force', wt])
         shutil.rmtree(wt, ignore_errors=True); shutil.rmtree(vd, ignore_errors=True)
     return seed, res
+ALL = False
 if __name__ == '__main__':
     args = sys.argv[1:]; j = 2
     if args[:1] == ['-j']: j = int(args[1]); args = args[2:]
+    if args[:1] == ['-all']: ALL = True; args = args[1:]
     seeds = args or sorted(d for d in os.listdir('/verif/seeded') if os.path.isdir(os.path.join('/verif/seeded', d)))
     props = [c['property_id'] for c in json.load(open('/verif/MANIFEST.json'))['checks']]
     if args[:1] == ['-p']: props = args[1].split(','); args = args[2:]; seeds = args or seeds
